@@ -32,7 +32,7 @@ PLAN = dict(
           "error kind) of every line. A document is non-trivial when it has >= 2 entry lines and a blank "
           "line, an unterminated last line or a one-character line; a single line is non-trivial when it "
           "is one character long or contains a blank, '@' or non-ASCII byte. Distinct = distinct document "
-          "bytes by 64-bit fingerprint."),
+          "bytes by 64-bit fingerprint. Round 10: documents of exactly n non-blank lines for every n up to 700 (thorough 2100) with and without the final newline; documents of exactly k x 256 / 512 / 1024 / 4096 bytes whose unterminated last file name ends in NUL, DEL or letter padding."),
     assumptions=[
         "derived Debug of PlistEntry / Vec is injective on entries (OsString and String escape, so it is); the text "
         "between the first '[' and the last ']' of Debug(Plist) is the entry list",
